@@ -54,3 +54,32 @@ package xmpp
 //
 //@ lemma [C19.monotone] forall base Int, factor Int, cap Int, n Int, m Int :: base >= 1 && factor >= 1 && cap >= 1 && 0 <= n && n <= m ==> boDelay(base, factor, cap, n) <= boDelay(base, factor, cap, m)
 //@ lemma [C19.capped] forall base Int, factor Int, cap Int, n Int :: base >= 1 && factor >= 1 && cap >= 1 && 0 <= n ==> 1 <= boDelay(base, factor, cap, n) && boDelay(base, factor, cap, n) <= cap
+
+// ---------------------------------------------------------------------------
+// C20: address normalisation and transport choice
+//
+// The five address forms of the property, as a relation between the given address, the default port and the
+// normalised address r (the excluded ambiguous form "bare IPv6 literal directly followed by :port" is not constrained).
+//@ pred epHost(addr, port, r)     := !contains(addr, ":") && !prefixof("[", addr) ==> r == addr + ":" + itoa(port)
+//@ pred epHostPort(addr, port, r) := alls(h, p, addr == h + ":" + p && !contains(h, ":") && !contains(p, ":") && !prefixof("[", h) ==> r == addr)
+//@ pred epV6(addr, port, r)       := alls(h, addr == "[" + h + "]" && !contains(h, "]") ==> r == addr + ":" + itoa(port))
+//@ pred epV6Port(addr, port, r)   := alls(h, p, addr == "[" + h + "]:" + p && !contains(p, ":") && !contains(p, "]") ==> r == addr)
+//@ pred epBareV6(addr, port, r)   := alls(a, b, c, addr == a + ":" + b + ":" + c && !prefixof("[", addr) ==> r == "[" + addr + "]:" + itoa(port))
+//@ pred epForms(addr, port, r)    := epHost(addr, port, r) && epHostPort(addr, port, r) && epV6(addr, port, r) && epV6Port(addr, port, r) && epBareV6(addr, port, r)
+//@ pred isWs(addr) := prefixof("ws:", addr) || prefixof("wss:", addr)
+//
+//@ func xmpp.ensurePort(addr, port) (r)
+//@   ensures [C20.form.host]     epHost(addr, port, r)
+//@   ensures [C20.form.hostport] epHostPort(addr, port, r)
+//@   ensures [C20.form.v6]       epV6(addr, port, r)
+//@   ensures [C20.form.v6port]   epV6Port(addr, port, r)
+//@   ensures [C20.form.barev6]   epBareV6(addr, port, r)
+//
+//@ func xmpp.NewClientTransport(config) (t)
+//@   ensures [C20.client.ws]  isWs(config.Address) ==> typeof(t) == *WebsocketTransport && t.(*WebsocketTransport) != nil && t.(*WebsocketTransport).Config.Address == config.Address
+//@   ensures [C20.client.tcp] !isWs(config.Address) ==> typeof(t) == *XMPPTransport && t.(*XMPPTransport) != nil && epForms(config.Address, 5222, t.(*XMPPTransport).Config.Address)
+//@   ensures [C20.client.cfg] !isWs(config.Address) ==> t.(*XMPPTransport).Config.Domain == config.Domain && t.(*XMPPTransport).Config.TLSConfig == config.TLSConfig && t.(*XMPPTransport).Config.ConnectTimeout == config.ConnectTimeout
+//
+//@ func xmpp.NewComponentTransport(config) (t, err)
+//@   ensures [C20.component.ws]  isWs(config.Address) ==> err != nil && t == nil
+//@   ensures [C20.component.tcp] !isWs(config.Address) ==> err == nil && typeof(t) == *XMPPTransport && t.(*XMPPTransport) != nil && epForms(config.Address, 5222, t.(*XMPPTransport).Config.Address)
